@@ -87,6 +87,7 @@ def main(argv=None) -> int:
     ap.add_argument("--stride", type=int, required=True)
     ap.add_argument("--offset", type=int, required=True)
     ap.add_argument("--out", required=True)
+    ap.add_argument("--deadline", type=float, default=None)
     a = ap.parse_args(argv)
 
     import importlib
@@ -111,8 +112,10 @@ def main(argv=None) -> int:
     samples = []
     viol_cases = []
     per_case_timeout = getattr(mod, "CASE_TIMEOUT", 120.0)
-    t_end = time.time() + getattr(mod, "TIMEOUT", {}).get(
-        a.tier, 600 if a.tier == "quick" else 3600) * 0.9
+    # the runner's absolute deadline (minus a margin to dump results) bounds the work;
+    # cases not started by then are counted as not run, never silently dropped
+    t_end = a.deadline if a.deadline is not None else time.time() + getattr(
+        mod, "TIMEOUT", {}).get(a.tier, 600 if a.tier == "quick" else 3600) * 0.9
     not_run = 0
     for i in range(a.offset, total, a.stride):
         if time.time() > t_end:
